@@ -8,7 +8,7 @@ From RtoscV Require Import Save.TopoModel Save.SaveModel Save.SaveProofs Save.Ro
 From RtoscV Require Import Ports.WalkModel Ports.DispatchModel Ports.TreeProofs Ports.DispatchWalk Ports.NamesModel.
 From RtoscV Require Import Save.TreeApp Save.DispatchStage Save.TreeStage Save.WalkStage Save.TreePipeline.
 From RtoscV Require Pretty.Tok Pretty.PrintModel Pretty.ScanModel Pretty.PrettyProofs Pretty.RunProofs Pretty.ListProofs Pretty.ArrayProofs.
-From RtoscV Require Import Save.PrintStage Save.PrintLines Save.PipelineReal.
+From RtoscV Require Import Save.PrintStage Save.PrintTotal Save.PrintLines Save.PipelineReal.
 Import ListNotations.
 Local Open Scope Z_scope.
 
@@ -542,7 +542,69 @@ Proof. exact scalar_line_prints. Qed.
                    without NUL and '.', bare symbol [good_elem]; +0.0 and -0.0 not both [nozmix]
    Excluded: NaN, infinities; arrays mixing types; C10's two list-level findings inside arrays. *)
 Theorem C12_good_line_reads : forall (dec2f dec2d : list Z -> Z) o l,
+  PrintModel.lossless o = true -> good_line l -> line_reads dec2f dec2d o l.
+Proof. exact good_line_reads_total. Qed.
+
+(* printer totality with compression ON (open since stage 5): a message whose values are one
+   array of C10's goodc values is printed by the model for every option record, address and
+   length - the range conversion inside the array loop (rtosc_convert_to_range, the run loops,
+   rtosc_print_range) never takes a path the model does not cover *)
+Theorem C12_array_message_prints : forall o zf zd addr ty elems,
+  ListProofs.zchoice zf zd -> Forall (ListProofs.goodc o zf zd) elems ->
+  Z.of_nat (length elems) + 1 < 2 ^ 31 ->
+  exists text w, PrintModel.print_message o addr (Tok.VArr ty (Z.of_nat (length elems)) :: elems) 0 = Some (text, w).
+Proof. exact array_message_prints_any. Qed.
+
+Theorem C12_good_line_prints : forall o l,
   PrintModel.lossless o = true -> good_line l ->
-  (l_array l = true -> exists t w, PrintModel.print_message o (l_path l) (line_avs l) 0 = Some (t, w)) ->
-  line_reads dec2f dec2d o l.
-Proof. exact good_line_reads. Qed.
+  exists t w, PrintModel.print_message o (l_path l) (line_avs l) 0 = Some (t, w).
+Proof. exact good_line_prints. Qed.
+
+(* C12_roundtrip_tree_real_partial WITHOUT the per-line premise: every saved line is in the
+   class [good_line] (conditions on the saved VALUES only, see C12_good_line_reads) and the
+   option record is lossless (default_print_options, with which savefiles are written, is).
+   Still _partial: the other premises of C12_roundtrip_tree_real_partial (application well formed,
+   no NaN, metadata declares the dependencies, decidable conditions on the tree). *)
+Theorem C12_roundtrip_tree_real_lines_partial :
+  forall (dec2f dec2d : list Z -> Z) o hp tid (t : list pt) apropos fuel F st ps,
+    let a := app_of_tree t in
+    names_ok (sports_of t) = true -> tree_ok (to_tree hp tid (sports_of t)) -> Forall pt_wf t ->
+    NoDup (map dir_addr (dirs_root t)) -> NoDup (app_addresses a) ->
+    full_conditions a st -> comparable a st -> cstrings st ->
+    declared a apropos ->
+    pushes line apropos fuel (msgs (save_lines a st)) = Some ps -> ranked ps ->
+    PrintModel.lossless o = true -> Forall good_line (save_lines a st) ->
+    exists fin,
+      real_load (option (list Z)) (scan_text_real dec2f dec2d) (fun _ l s => tree_apply_line hp tid t l s)
+                (fun _ ls => sort_by_load_order apropos fuel ls) a
+                (real_save (option (list Z)) (fun _ s => walk_tree t s) (av_eq_real F) (print_body o) a st)
+                (initial a)
+      = Some (Z.of_nat (length (save_lines a st)), fin) /\
+      forall q, (q < length a)%nat -> p_nodef (port_at a q) = false -> live a st q = true ->
+                restored_val (port_at a q) (val_at st q) (val_at fin q).
+Proof. exact roundtrip_tree_real_lines. Qed.
+
+(* the tree of C12_pipeline_tree_nonvacuous with /t = [1 5 1]: the body is
+   "/e true\n/s/x 9\n/t [1 5]\n" (array line, suffix equal to the default trimmed) *)
+Theorem C12_roundtrip_tree_real_lines_nonvacuous : forall (dec2f dec2d : list Z -> Z),
+  let a := app_of_tree fx_tree in
+  full_conditions a fx_state /\
+  print_body opts_default (save_lines a fx_state)
+    = Some [47; 101; 32; 116; 114; 117; 101; 10;  47; 115; 47; 120; 32; 57; 10;
+            47; 116; 32; 91; 49; 32; 53; 93; 10] /\
+  Forall good_line (save_lines a fx_state) /\
+  Forall (line_reads dec2f dec2d opts_default) (save_lines a fx_state).
+Proof. exact roundtrip_tree_real_lines_nonvacuous. Qed.
+
+(* lines of the other kinds: /f 0.10 (0x1.99999ap-4), /o sine, /s "a...b" (dots are no obstacle on
+   a one-value line), /a [0.50 (0x1p-1) 5x-0.00 (-0x0p+0)] *)
+Theorem C12_good_line_examples : forall (dec2f dec2d : list Z -> Z),
+  Forall good_line [ex_float_line; ex_symbol_line; ex_dotted_line; ex_farray_line] /\
+  Forall (line_reads dec2f dec2d opts_default) [ex_float_line; ex_symbol_line; ex_dotted_line; ex_farray_line] /\
+  print_body opts_default [ex_float_line; ex_symbol_line; ex_dotted_line; ex_farray_line] =
+  Some ([47; 102; 32; 48; 46; 49; 48; 32; 40; 48; 120; 49; 46; 57; 57; 57; 57; 57; 97; 112; 45; 52; 41; 10] ++
+        [47; 111; 32; 115; 105; 110; 101; 10] ++
+        [47; 115; 32; 34; 97; 46; 46; 46; 98; 34; 10] ++
+        [47; 97; 32; 91; 48; 46; 53; 48; 32; 40; 48; 120; 49; 112; 45; 49; 41; 32; 53; 120; 45; 48; 46; 48; 48; 32;
+         40; 45; 48; 120; 48; 112; 43; 48; 41; 93; 10]).
+Proof. exact good_line_examples. Qed.
